@@ -32,7 +32,7 @@ RULE = ("one run = one simulated genuine device (per-run issuer / device / attes
         "field altered - then gathering or verification must fail unless the reference verifier shows "
         "that no attested value changed; non-trivial = verification was reached; distinct = (platform, "
         "class, alteration site, framing / paging, outcome)")
-TIERS = {"quick": {"runs": 500, "wall": 170}, "thorough": {"runs": 20000, "wall": 2400}}
+TIERS = {"quick": {"runs": 6000, "wall": 240}, "thorough": {"runs": 100000, "wall": 3000}}
 MUTANT_RUNS = 1500
 MUTANT_WALL = 150
 COMPONENTS = {
